@@ -21,7 +21,7 @@ SHEET_CELLS = G.SHEET_CELLS
 def plan(tier, seed):
     scs = base_scenarios(tier, seed, hints=False)
     scs += [dict(large=o) for o in (0, 1)]
-    scs += [sc for sc in special_scenarios(tier) if sc['special'] != 'large']
+    scs += [sc for sc in special_scenarios(tier) if sc['special'] != 'large'] + history_scenarios(tier)
     return dict(scenarios=scs, exhaustive=True, chunk=40, menus=menus(tier, seed),
                 bounds=dict(draw_deviation_bound=draw_bound(tier), executions_cap_per_scenario=60 if tier == 'quick' else 300, reference_images='-2..2 per axis'),
                 rule='one scenario per alphabet tuple, every draw answer within the bound inside; non-trivial = the reference finds at least one IN group and the scenario has a decoy, several copies or a boundary-crossing placement',
@@ -42,6 +42,29 @@ def run(sc, ctx):
         elif sorted(tuple(sorted(int(i) for i in t)) for t in res) != exp:
             out['violations'].append(viol('found', 'large-structure', 'structure of %d atoms (5 copies of a C-O-H pattern, every other atom is He): reported %r, the occurrences are %r' % (len(el), [tuple(int(i) for i in t) for t in res], exp), sc))
         out['outcomes']['large structure'] = 1; out['nontrivial'] = 1
+        return out
+    if 'history' in sc:
+        # the reference matcher applied to the current content of objects with a past
+        e = run_history(sc, ctx)
+        desc = dict(history=e['name'], base=HIST_BASES[sc['base']], hints=e['kw'])
+        if e.get('alias'):
+            out['violations'].append(viol('found', 'history:shared-data', '%s: %s' % (e['name'], e['alias']), sc, case=desc))
+        if e.get('skip'):
+            out['outcomes']['history skipped'] = 1; return out
+        S, Pt = e['S'], e['P']; out['evals'] += 1; out['compared'] += 1
+        if e['err']:
+            out['violations'].append(viol('no-result', 'history-exc:' + exc_sig(e['err']), 'after the history "%s" the search raised %r' % (e['name'], e['err'][0]), sc, case=desc)); return out
+        pp = np.asarray(Pt.positions, float); pel = [str(x) for x in Pt.elements]
+        groups = ref_match(np.asarray(S.positions, float), [str(x) for x in S.elements], np.asarray(S.cell, float), pp, pel, e['atol'], cconst_hints(pp, e['kw'].get('axisp1_idx'), e['kw'].get('axisp2_idx'), e['kw'].get('opoint_idx')))
+        IN = {g for g, v in groups.items() if v[0] == 'IN'}; GR = {g for g, v in groups.items() if v[0] == 'GRAY'}
+        rep = [tuple(sorted(int(i) for i in t)) for t in e['res'][0]]
+        if len(set(rep)) != len(rep):
+            out['violations'].append(viol('exactly-once', 'history:duplicate', 'after the history "%s": a group is reported twice: %r' % (e['name'], rep), sc, case=desc))
+        if IN - set(rep):
+            out['violations'].append(viol('found', 'history:missed', 'after the history "%s" (judged on the current content): occurrence(s) %r not reported; reported %r' % (e['name'], sorted(IN - set(rep)), rep), sc, case=desc))
+        if set(rep) - IN - GR:
+            out['violations'].append(viol('nothing-else', 'history:spurious', 'after the history "%s" (judged on the current content): reported %r, which the structure does not contain; occurrences are %r' % (e['name'], sorted(set(rep) - IN - GR), sorted(IN)), sc, case=desc))
+        out['outcomes']['history IN=%d' % len(IN)] = 1; out['nontrivial'] = 1 if IN else 0
         return out
     m = materialise(sc, ctx)
     spec = m['spec']; atol = sc['atol']
